@@ -26,6 +26,7 @@ PROP = 'C09'
 LEVEL = 'exploration'
 RUNS = {'quick': 960, 'thorough': 14400}
 RUN_GROUP = 3
+EVAL_COUNTER = 'items_checked'   # a case is one result item (one closest-genomes list)
 
 AVX512 = 'AVX512F AVX512CD AVX512_SKX AVX512_CLX AVX512_CNL AVX512_ICL'
 DISPATCH = ['', AVX512, AVX512 + ' AVX2 FMA3']
